@@ -51,6 +51,9 @@ PARTIAL = [
     'for the code as written the same statements are refuted (coq/Findings/F_C14.v) and listed as findings',
     'undo_restores_impl_partial: undo() as written restores every parameter that is not a pickup/solve target',
     'solves are covered only through the two hypotheses on update(); chained pickups violate them (C01/D20)',
+    'binary64: vertex positions are absolute z updated incrementally, so huge excursions of an unbounded thickness during a '
+    'run leave rounding in later positions; read-back and merit tolerances scale with the largest excursion logged '
+    '(1e-15 resp. 1e-11 relative to it, capped at 1e-6 / 1e-4)',
     'binary64: set-then-get returns the value up to rounding of scale/inverse_scale (checked to 1e-12 by correspondence); '
     'observed: when a run returns a solution exactly on a bound, a second differential_evolution run started from it raises '
     '"x0 lay outside the specified bounds" (SciPy rescales x0 to [0,1] with rounding); counted as restart-from-bound-raise, '
@@ -730,8 +733,10 @@ def check_opt(cases, obs, tag):
         # vertex positions are stored as absolute z: a thickness read back is a difference of two of them, so its
         # rounding error scales with the largest distance in the lens (an unbounded thickness can run to 1e7 mm)
         mag = max([1.0] + [abs(hx(r)) for st_ in o['steps'] for k_ in ('before', 'after') for r in st_[k_]['raw']
-                          if math.isfinite(hx(r))])
-        tolr = fx(max(1e-12, 1e-15 * mag))
+                          if math.isfinite(hx(r))]
+                  + [100.0 * abs(float.fromhex(t)) for st_ in o['steps'] for p_, _f in st_['log'] for t in p_
+                     if math.isfinite(float.fromhex(t))])       # excursions during the run leave their rounding in the vertex positions
+        tolr = fx(min(1e-6, max(1e-12, 1e-15 * mag)))
         for si, st in enumerate(o['steps']):
             s_before = cq_store(c['coords'], st['before']['raw'])
             if st['step'] == 'opt' and 'x' in st:
@@ -837,16 +842,20 @@ def opt_oracle(c, o, bad, ci, hist):
             # is lower) the run is counted and judged against the logged value - the lens cannot do better than
             # be at result.x with the merit the objective has there.
             lm = hx(after['merit'])
+            # vertex positions are absolute z updated incrementally: an excursion of the line search to |t| ~ 1e9 mm leaves
+            # ~1e-7 mm of rounding in every later position, so the merit at the same x is reproduced only to that level
+            exc = max([1.0] + [100.0 * abs(t) for p_, _f in log for t in p_ if math.isfinite(t)])
+            tol_m = min(1e-4, max(1e-9, 1e-11 * exc))
             at_x = [f for p, f in log if all(a == b or near(a, b, 1e-15) for a, b in zip(p, x))]
             if at_x and not any(near_merit(f, fun, 1e-12) for f in at_x):
                 hist['scipy-result-inconsistent(fun != logged f(x*))'] = hist.get('scipy-result-inconsistent(fun != logged f(x*))', 0) + 1
-                good = [f for f in at_x if near_merit(f, lm)]
+                good = [f for f in at_x if near_merit(f, lm, tol_m)]
                 fun = good[-1] if good else at_x[-1]
             elif log and not at_x:
                 hist['xstar-not-among-logged-points'] = hist.get('xstar-not-among-logged-points', 0) + 1
             # state == returned solution, merit == objective at the returned solution
             ok_state = all(near(a, b) for a, b in zip(avals, x))
-            ok_merit = near_merit(lm, fun)
+            ok_merit = near_merit(lm, fun, tol_m)
             if not (ok_state and ok_merit):
                 last = log[-1][0] if log else bvals
                 at_last = all(near(a, b) for a, b in zip(avals, last))
@@ -1021,12 +1030,14 @@ def multi_oracle(c, o, ci, hist):
             f0 = hx(before['merit'])
             lm = hx(after['merit'])
             log = [([float.fromhex(t) for t in p], float.fromhex(f)) for p, f in st['log']]
+            exc = max([1.0] + [100.0 * abs(t) for p_, _f in log for t in p_ if math.isfinite(t)])
+            tol_m = min(1e-4, max(1e-9, 1e-11 * exc))
             at_x = [f for p, f in log if all(a == b or near(a, b, 1e-15) for a, b in zip(p, x))]
             if at_x and not any(near_merit(f, fun, 1e-12) for f in at_x):
                 hist['scipy-result-inconsistent(fun != logged f(x*))'] = hist.get('scipy-result-inconsistent(fun != logged f(x*))', 0) + 1
-                good = [f for f in at_x if near_merit(f, lm)]
+                good = [f for f in at_x if near_merit(f, lm, tol_m)]
                 fun = good[-1] if good else at_x[-1]
-            if not (all(near(a, b) for a, b in zip(avals, x)) and near_merit(lm, fun)):
+            if not (all(near(a, b) for a, b in zip(avals, x)) and near_merit(lm, fun, tol_m)):
                 W('state', si, returned_x=x, objective_at_x=fun, lens_values=avals, lens_merit=lm)
             if 'least_squares' in fe and log:
                 sb = [spec_bounds(v) for v in vars_]
